@@ -20,7 +20,7 @@ ASSUMPTIONS = ['lenient parses (2020/1/1, 2020/01) are neither required nor forb
 
 MIN_ORD = datetime.date(1900, 1, 1).toordinal()
 MAX_ORD = datetime.date(2100, 12, 31).toordinal()
-BAD_KINDS = ['alpha', 'empty', 'blank', 'three', 'dashes', 'impossible', 'reversed', 'halfbad']
+BAD_KINDS = ['alpha', 'empty', 'blank', 'three', 'dashes', 'impossible', 'reversed', 'halfbad', 'openend', 'openend']
 IMPOSSIBLE = [(2, 29), (2, 30), (2, 31), (4, 31), (6, 31), (9, 31), (11, 31), (13, 13), (13, 32), (0, 10),
               (5, 0), (7, 32), (12, 32), (1, 32), (14, 20), (0, 0)]
 
@@ -71,6 +71,8 @@ def _entry(draw, anchor, allow_bad):
       e['b'] = e['b'] if e['b'] is not None else a
       e['sep'] = e['sep'] or ' - '
       e['side'] = draw(st.integers(0, 1))
+    if bad == 'openend':
+      e['form'] = draw(st.integers(0, 2))
     if bad == 'alpha':
       e['text'] = draw(st.sampled_from(['abc', 'foo/bar/baz', 'xx/yy/zzzz', 'not a date', '??']))
   return e
@@ -124,6 +126,9 @@ def render(e):
     if (m, dd) == (2, 29) and _is_leap(y):
       y += 1
     return '%04d/%02d/%02d' % (y, m, dd)
+  if bad == 'openend':
+    # a range with one end missing: "A-", "A -", "-A"
+    return [fmt(e['a']) + '-', fmt(e['a']) + ' -', '-' + fmt(e['a'])][e.get('form', 0)]
   if bad == 'reversed':
     return fmt(e['b']) + e['sep'] + fmt(e['a'])
   if bad == 'halfbad':
